@@ -19,6 +19,8 @@ type VGhost struct {
 	InVal [256]uint8     // value the device answers for In(port)
 	Retn  uint8          // calls of RETNHandler.RETNHandle
 	Reti  uint8          // calls of RETIHandler.RETIHandle
+	Log   [256]uint32    // ordered log of the bus/port accesses (ring buffer), used only
+	LogN  uint8          // by the relational DD/FD obligations of C11 (sequence, not bag)
 }
 
 // VState is the complete abstract machine state.
